@@ -77,3 +77,22 @@ Example C02_witness :
   | Raise _ => False
   end.
 Proof. vm_compute. reflexivity. Qed.
+
+(* which members are "leading" (the identifiers a kept picked-group entry blocks): the members with the most peptides among the
+   members AND every protein its evidence names *)
+Theorem C02_leading_proteins_spec : forall g infos p,
+  In p (leading_proteins g infos) <->
+  In p g /\ forall q, In q (g ++ concat (map pi_prots infos)) ->
+              peptide_count infos (Some (101 # 100)%Q) q <= peptide_count infos (Some (101 # 100)%Q) p.
+Proof. exact leading_proteins_spec. Qed.
+Print Assumptions C02_leading_proteins_spec.
+
+(* hence a group whose evidence names an outside protein with strictly more peptides than every member has no leading protein and
+   blocks nobody (placeholder groups whose evidence keeps the unprefixed names; score types that keep shared peptides) *)
+Theorem C02_no_leader_when_outsider_has_most : forall g infos q,
+  In q (concat (map pi_prots infos)) ->
+  (forall p, In p g -> peptide_count infos (Some (101 # 100)%Q) p < peptide_count infos (Some (101 # 100)%Q) q) ->
+  leading_proteins g infos = [].
+Proof. exact no_leader_when_outsider_has_most. Qed.
+Print Assumptions C02_no_leader_when_outsider_has_most.
+
